@@ -11,6 +11,7 @@ the append-only vector of all symbols.
 * `panic!`/`assert!` are the output `Out.panic`; the state is left unchanged (the Rust aborts).
 -/
 import Oq3.Model.Types
+import Oq3.Gen.StdGates
 
 namespace Oq3.Symbols
 open Oq3.Types
@@ -127,12 +128,14 @@ def outs (t : SymTab) : List Op → List Out
 
 def empty : SymTab := { stack := [], all := [], counter := 0 }
 
-def builtinConsts : List Name := ["pi", "π", "euler", "ℇ", "tau", "τ"]
+/-- the built-in constants: TRANSLATED from `SymbolTable::new` on every run (`Oq3/Gen/StdGates.lean`) -/
+def builtinConsts : List Name := Oq3.Gen.builtinConsts
 
 /-- `SymbolTable::new` -/
 def init : SymTab :=
   run empty (Op.enter .global ::
-    (builtinConsts.map (fun n => Op.bind n (T.float (some 64) true)) ++ [Op.bind "U" (T.gate 3 1)]))
+    (builtinConsts.map (fun n => Op.bind n (T.float (some Oq3.Gen.builtinConstWidth) Oq3.Gen.builtinConstIsConst)) ++
+      [Op.bind Oq3.Gen.builtinGate.1 (T.gate Oq3.Gen.builtinGate.2.1 Oq3.Gen.builtinGate.2.2)]))
 
 /-- `SymbolTable::gates` -/
 def SymTab.gates (t : SymTab) : List (Name × Nat × Nat × Nat) :=
@@ -148,16 +151,9 @@ def SymTab.hardwareQubits (t : SymTab) : List (Name × Nat) :=
     | .hwqubit => some (s.name, i)
     | _ => none
 
-/-- `standard_library_gates`'s table, in binding order -/
-def stdGateTable : List (List Name × Nat × Nat) :=
-  [ (["x", "y", "z", "h", "s", "sdg", "t", "tdg", "sx", "id"], 0, 1),
-    (["p", "rx", "ry", "rz", "phase", "u1"], 1, 1),
-    (["u2"], 2, 1),
-    (["u3"], 3, 1),
-    (["cx", "cy", "cz", "ch", "swap", "CX"], 0, 2),
-    (["cp", "crx", "cry", "crz", "cphase"], 1, 2),
-    (["cu"], 4, 2),
-    (["ccx", "cswap"], 0, 3) ]
+/-- `standard_library_gates`'s table, in binding order: TRANSLATED from the source on every run
+(`Oq3/Gen/StdGates.lean`, vf/extract.py `gen_std_gates`) -/
+def stdGateTable : List (List Name × Nat × Nat) := Oq3.Gen.stdGateTable
 
 def stdGates : List (Name × Nat × Nat) :=
   stdGateTable.flatMap fun (ns, np, nq) => ns.map fun n => (n, np, nq)
